@@ -157,6 +157,11 @@ func (g *Gen) WrkRegisterMsg(owner lab.Acct) *wrkchaintypes.MsgRegisterWrkChain 
 		name = []string{name + " ", " " + name, name + "\n", " "}[g.E.R.Intn(4)]
 	case 4: // monikers are free text, not unique, and case matters
 		mon = []string{"acme", "Acme", "ACME", "acme"}[g.E.R.Intn(4)]
+	case 5: // only the moniker is mandatory
+		name = ""
+	}
+	if g.E.R.Chance(12) {
+		return &wrkchaintypes.MsgRegisterWrkChain{Moniker: mon, Name: name, GenesisHash: "", BaseType: "", Owner: g.spell(owner, 10)}
 	}
 	return &wrkchaintypes.MsgRegisterWrkChain{Moniker: mon, Name: name, GenesisHash: g.hash(g.hashLen()), BaseType: []string{"geth", "cosmos", ""}[g.E.R.Intn(3)], Owner: g.spell(owner, 10)}
 }
@@ -176,6 +181,8 @@ func (g *Gen) BeaconRegisterMsg(owner lab.Acct) *beacontypes.MsgRegisterBeacon {
 		name = []string{name + " ", " " + name, name + "\n", " "}[g.E.R.Intn(4)]
 	case 4:
 		mon = []string{"acme", "Acme", "ACME", "acme"}[g.E.R.Intn(4)]
+	case 5:
+		name = ""
 	}
 	return &beacontypes.MsgRegisterBeacon{Moniker: mon, Name: name, Owner: g.spell(owner, 10)}
 }
